@@ -8,7 +8,11 @@ side (flips, truncations, garbage, insertions; random chunking) checks 'a messag
 never a panic'."""
 import json
 import os
+import re
 from vlib import core
+
+MAX_CRASH_ROUNDS = 3      # crashes of the many-case process that are followed up before the rest is given up
+MAX_CRASHING_UNITS = 4    # crashing (delivery, EOF style) units examined per case that crashes alone
 
 
 def tamper_class(c, f=None):
@@ -26,6 +30,8 @@ def qualifier(fs):
         return ""
     if all(e == "eager" for _, e in combos):
         return ";eof-with-last-bytes"
+    if all(p.startswith("cut(") for p, _ in combos):
+        return ";sparse-delivery"       # only when a chunk ends inside a field and the next one is not cut at the field's end
     if all(p != "all" for p, _ in combos):
         return ";chunked"
     return ""
@@ -39,23 +45,193 @@ def op_msg(c, f):
     return f.get("op", "?")
 
 
+# ------------------------------------------------------------------ panics: whose code was it
+MODULE = "github.com/spikeekips/mitum/"
+FRAME = re.compile(r"^(\S.*)\n\t(/\S+?):(\d+)(?: \+0x[0-9a-f]+)?$", re.M)
+
+
+def panic_origin(text):
+    """(where, function, frames from the panicking one on) of a Go panic report - the text of a died process' stderr or what h.Catch
+    recorded (message + debug.Stack()). where: 'repo' when the panicking frame (the first frame after the
+    runtime's own ones that belongs to the repository or to the harness) is code of the tree under test,
+    'harness' when it is ours, None when the text is no panic report."""
+    m = re.search(r"^(panic: .*|fatal error: concurrent map .*)$", text, re.M)
+    if not m:
+        return None, None, []
+    rest = text[m.end():]
+    g = re.search(r"^goroutine \d+ \[[^\]]*\]:\n", rest, re.M)
+    if not g:
+        return None, None, []
+    block = rest[g.end():].split("\n\n", 1)[0]
+    frames = [(fm.group(1), fm.group(2), int(fm.group(3))) for fm in FRAME.finditer(block)]
+    last = max([i for i, fr in enumerate(frames) if fr[0].startswith("panic(")], default=-1)
+    repo = os.path.realpath(core.REPO) + "/"
+    harness = os.path.realpath(core.HARNESS) + "/"
+    for j in range(last + 1, len(frames)):
+        fn, path, _ = frames[j]
+        if fn.startswith("created by "):
+            break
+        rp = os.path.realpath(path)
+        name = strip_args(fn.replace(MODULE, ""))
+        if rp.startswith(harness):
+            return "harness", name, frames[j:]
+        if rp.startswith(repo):
+            return "repo", name, frames[j:]
+    return None, None, frames
+
+
+def strip_args(fn):
+    """'util.EnsureRead({0x13..}, ...)' -> 'util.EnsureRead'; 'header.(*baseBroker).readHead(0xc0..)' keeps the receiver"""
+    depth = 0
+    for i in range(len(fn) - 1, -1, -1):
+        if fn[i] == ")":
+            depth += 1
+        elif fn[i] == "(":
+            depth -= 1
+            if depth == 0:
+                return fn[:i]
+    return fn
+
+
+def panic_head(text, frames, n=6):
+    m = re.search(r"^(panic: .*|fatal error: .*)$", text, re.M)
+    return (m.group(1) if m else "panic") + " at " + " <- ".join("%s (%s:%d)" % (strip_args(f.replace(MODULE, "")), os.path.basename(p), l)
+                                                                 for f, p, l in frames[:n])
+
+
+# ------------------------------------------------------------------ running cases in processes that may die
+def read_progress(path):
+    started, rows, unit = [], {}, None
+    if os.path.exists(path):
+        with open(path) as f:
+            for line in f:
+                line = line.strip()
+                if not line:
+                    continue
+                try:
+                    d = json.loads(line)
+                except ValueError:
+                    continue        # the line the process was writing when it died
+                if "start" in d:
+                    started.append(d["start"])
+                elif "unit" in d:
+                    unit = d
+                else:
+                    rows[d["i"]] = d
+    return started, rows, unit
+
+
+def crash_of(p, what):
+    """the panic of a died harness process, or MachineryError: only a panic of the code under test is a verdict"""
+    where, fn, frames = panic_origin(p.stderr)
+    if where != "repo":
+        raise core.MachineryError("%s exited %d%s:\n%s\n%s" % (
+            what, p.returncode, " (panic in harness code %s)" % fn if where == "harness" else "", p.stdout[-2000:], p.stderr[-4000:]))
+    return fn, panic_head(p.stderr, frames)
+
+
+def run_alone(ctx, base, i, tag, deep):
+    """case i alone in fresh processes. Returns (row, number of crashes). A crash is charged to the
+    (delivery, EOF style) unit that was running; the case is then re-run without that unit, so that what its
+    other units show is reported as well."""
+    skip, fails, row = [], [], None
+    out = os.path.join(ctx.work, "%s.alone%d.res" % (tag, i))
+    for _ in range(MAX_CRASHING_UNITS if deep else 1):
+        args = base + ["--only", i, "--out", out, "--trace", "1", "--workers", "1", "--grace", "300"]
+        if skip:
+            args += ["--skip", ";".join(skip)]
+        p = ctx.vh(args, timeout=600, check=False)
+        _, rows, unit = read_progress(out)
+        if p.returncode == 0:
+            row = rows.get(i)
+            if row is None:
+                raise core.MachineryError("%s case %d alone: no result" % (tag, i))
+            break
+        fn, head = crash_of(p, "vh %s (case %d alone)" % (" ".join(map(str, base)), i))
+        if unit is None or unit.get("case") != i:
+            raise core.MachineryError("%s case %d alone: the process died outside any guarded call:\n%s" % (tag, i, p.stderr[-3000:]))
+        name = unit["unit"]
+        plan, _, eof = name.partition(":")[2].rpartition("/") if name.startswith(("c2h:", "h2c:")) else name.rpartition("/")
+        fails.append({"side": unit["side"], "at": -1, "op": unit["side"], "kind": "panic", "plan": plan or "random", "eof": eof or name,
+                      "got": head, "want": "a message or an error", "fn": fn, "process_died": True, "unit": name, "tok": unit.get("tok", "")})
+        if name == "fuzz" or name in skip:
+            break
+        skip.append(name)
+    if row is None:
+        row = {"i": i, "calls": 0, "units": 0, "incomplete": True}
+    if fails:
+        row["fails"] = fails + row.get("fails", [])
+        row["crashed_units"] = [f["unit"] for f in fails]
+    return row, len(fails)
+
+
+def run_cases(ctx, base, n, tag, timeout=3000):
+    """Cases 0..n-1 of `vh <base>`; returns {i: row}. The code under test starts goroutines of its own, a panic
+    there ends the process: the cases that were running are re-run alone; those that die alone with a panic whose
+    origin is the repository's code get a row saying so (-> verdict), the others their ordinary row; the
+    remaining cases go on in a fresh process. A death that is not such a panic, or that no case reproduces
+    alone, is a MachineryError."""
+    pending, rows, rounds = list(range(n)), {}, 0
+    while pending:
+        ids = os.path.join(ctx.work, "%s.ids%d" % (tag, rounds))
+        out = os.path.join(ctx.work, "%s.res%d" % (tag, rounds))
+        with open(ids, "w") as f:
+            f.write("".join("%d\n" % i for i in pending))
+        what = "vh %s --ids .." % " ".join(map(str, base))
+        p = ctx.vh(base + ["--ids", ids, "--out", out], timeout=timeout, check=False)
+        started, done, _ = read_progress(out)
+        rows.update(done)
+        if p.returncode == 0:
+            if len(done) != len(pending):
+                raise core.MachineryError("harness answered %d of %d %s cases" % (len(done), len(pending), tag))
+            break
+        fn, head = crash_of(p, what)
+        suspects = [i for i in started if i not in done]
+        confirmed = 0
+        for i in suspects:
+            row, ncrash = run_alone(ctx, base, i, tag, deep=confirmed < 2 and rounds == 0)
+            rows[i] = row
+            confirmed += 1 if ncrash else 0
+        if not confirmed:
+            raise core.MachineryError("%s died (%s) but none of the cases %s dies alone:\n%s" % (what, head, suspects, p.stderr[-3000:]))
+        rounds += 1
+        ctx.extra.setdefault("process_deaths", []).append({"run": tag, "panic": head, "cases_running": suspects, "die_alone": confirmed})
+        pending = [i for i in pending if i not in rows]
+        if rounds >= MAX_CRASH_ROUNDS and pending:
+            ctx.extra.setdefault("not_replayed_after_process_deaths", {})[tag] = len(pending)
+            break
+    return rows
+
+
 def judge(ctx, cases, rows, label):
-    if len(rows) != len(cases):
-        raise core.MachineryError("harness answered %d of %d %s cases" % (len(rows), len(cases), label))
-    rows.sort(key=lambda r: r["i"])
-    calls = skipped = 0
+    """cases: list; rows: {i: row} (cases without a row were given up after repeated process deaths)"""
+    calls = skipped = units = sparse = 0
     anyc = {}
-    for c, row in zip(cases, rows):
-        calls += row["calls"]
+    for i in sorted(rows):
+        c, row = cases[i], rows[i]
+        calls += row.get("calls", 0)
+        units += row.get("units", 0)
+        sparse += row.get("sparse", 0)
         skipped += row.get("skipped_huge_alloc", 0)
         for k, v in (row.get("any") or {}).items():
             anyc[k] = anyc.get(k, 0) + v
         seen = {}
         for f in row.get("fails", []):
             if f["side"] == "machinery":
-                raise core.MachineryError("%s case %d: harness and specification disagree on the tokens: %s / %s" % (label, row["i"], f["got"], f["want"]))
-            if f["kind"] in ("panic", "hang"):
+                raise core.MachineryError("%s case %d: harness and specification disagree on the tokens: %s / %s" % (label, row["i"], f["got"], f.get("want")))
+            if f["kind"] == "panic":
+                fn = f.get("fn")
+                if not fn:
+                    where, fn, frames = panic_origin(f["got"])
+                    if where == "harness":
+                        raise core.MachineryError("%s case %d: panic in harness code %s:\n%s" % (label, row["i"], fn, f["got"][:3000]))
+                    if where == "repo":
+                        f["got"] = panic_head(f["got"], frames)
+                key = "panic(%s);%s;%s" % (fn or "?", f["side"], "fuzz" if c.get("fuzz") else tamper_class(c, f))
+            elif f["kind"] == "hang":
                 key = "%s;%s;%s" % (f["kind"], f["side"], tamper_class(c, f))
+            elif c.get("fuzz"):
+                key = "roundtrip;%s-%s;%s;random-chunks" % (f["side"], f.get("op", "?"), f["kind"])
             elif tamper_class(c) == "untouched":
                 key = "roundtrip;%s-%s;%s" % (f["side"], op_msg(c, f), f["kind"])
             else:
@@ -63,14 +239,14 @@ def judge(ctx, cases, rows, label):
             seen.setdefault(key, []).append(f)
         for key, fs in seen.items():
             f = fs[0]
-            if not key.startswith(("panic", "hang")):
+            if not key.startswith(("panic", "hang")) and not c.get("fuzz"):
                 key += qualifier(fs)
             where = sorted(set("%s/%s" % (x["plan"], x["eof"]) for x in fs if x.get("plan")))
             what = "%s %s [%s] chunking %s: got %s; the specification says %s" % (
-                f["side"], op_msg(c, f), tamper_class(c, f), ",".join(where)[:60], f["got"][:200].replace("\n", " "), f["want"] or "-")
+                f["side"], op_msg(c, f), tamper_class(c, f), ",".join(where)[:60], f["got"][:300].replace("\n", " "), f.get("want") or "-")
             small = {k: v for k, v in c.items() if k not in ("fails", "any")}
             ctx.violation(key, what, {"case": small, "failures": fs[:6]})
-    return calls, skipped, anyc
+    return calls, skipped, anyc, units, sparse
 
 
 def params(ctx):
@@ -84,39 +260,52 @@ def run(ctx):
     ctx.exhaustive = True
     ctx.rule = ("cases = completed runs of StreamHeader.tla under %s (request head, client bodies, handler reads/writes in every "
                 "order, client reads; second config: one adversary action on a type/length token or a cut of one direction), each "
-                "replayed in 4 chunkings x 2 EOF styles; plus %d seeded raw-byte fuzz cases of the read side; non-trivial = at "
+                "replayed in 4 dense deliveries x 2 EOF styles, and - once per distinct (bytes of a direction, read calls of that "
+                "direction) - in every sparse delivery of the specification (Deliveries: one or two cut points anywhere, a chunk "
+                "completes a field and carries bytes of the next) x 2 EOF styles; plus %d seeded raw-byte fuzz cases of the read "
+                "side under random chunk sizes (untouched ones must read back what was written); non-trivial = at "
                 "least one body or response; distinct by (client messages, handler calls, client calls, adversary action)" % (
                     " + ".join(P["cfgs"]), P["fuzz"]))
-    calls = skipped = 0
+    calls = skipped = units = sparse = 0
     anyc = {}
     nruns = {}
     for cfg in P["cfgs"]:
         r, steps = ctx.tlc_dump_steps("StreamHeader", cfg, timeout=2400)
         f = os.path.join(ctx.work, cfg + ".ndjson")
         core.write_ndjson(f, steps)
-        ctx.vh(["C30", "replay", "--in", f, "--out", f + ".res"], timeout=3000)
-        c, s, a = judge(ctx, steps, core.read_ndjson(f + ".res"), cfg)
+        rows = run_cases(ctx, ["C30", "replay", "--in", f], len(steps), cfg)
+        c, s, a, u, sp = judge(ctx, steps, rows, cfg)
         calls += c
         skipped += s
+        units += u
+        sparse += sp
         for k, v in a.items():
             anyc[k] = anyc.get(k, 0) + v
         nruns[cfg] = len(steps)
         for k, st in enumerate(steps):
+            if k not in rows:
+                continue
             ctx.case([st["cmsgs"], st["hops"], st["cops"], st["tam"]], len(st["cmsgs"]) > 1 or len(st["hops"]) > 1,
-                     sample=st if k % 499 == 0 else None)
-        ctx.traces += len(steps)
-    fres = os.path.join(ctx.work, "fuzz.ndjson")
-    ctx.vh(["C30", "fuzz", "--num", P["fuzz"], "--out", fres], timeout=3000)
-    frows = core.read_ndjson(fres)
-    frows.sort(key=lambda r: r["i"])
-    c, s, a = judge(ctx, frows, [dict(r) for r in frows], "fuzz")
+                     sample={x: y for x, y in st.items() if x != "cuts"} if k % 499 == 0 else None)
+        ctx.traces += len(rows)
+    frows = run_cases(ctx, ["C30", "fuzz", "--num", P["fuzz"]], P["fuzz"], "fuzz")
+    for r in frows.values():      # rows written for a process that died carry no description of the case
+        r.setdefault("fuzz", True)
+        r.setdefault("seed", ctx.seed)
+        r.setdefault("tamper", "?")
+    fcases = {i: dict(r) for i, r in frows.items()}
+    c, s, a, _, _ = judge(ctx, fcases, frows, "fuzz")
     calls += c
     skipped += s
-    for fr in frows:
-        ctx.case(["fuzz", fr["seed"], fr["i"]], fr["bytes"] > 0)
+    for i in sorted(frows):
+        fr = frows[i]
+        ctx.case(["fuzz", fr.get("seed", ctx.seed), fr["i"]], fr.get("bytes", 0) > 0)
     ctx.traces += len(frows)
     ctx.extra["runs"] = nruns
+    ctx.extra["delivery_units"] = units
+    ctx.extra["sparse_delivery_units"] = sparse
     ctx.extra["fuzz_cases"] = len(frows)
+    ctx.extra["fuzz_untouched_read_back"] = sum(1 for r in frows.values() if r.get("tamper") == "none")
     ctx.extra["fuzz_outcomes"] = a
     ctx.extra["real_calls"] = calls
     ctx.extra["skipped_huge_alloc"] = skipped
@@ -133,6 +322,12 @@ def run(ctx):
         "hostile lengths of the lengthed head parts between 1 MiB and 2^31-1 are not run (the reader allocates the announced "
         "size per Read call); counted in skipped_huge_alloc. Lengths >= 2^31 are refused by the code and are run",
         "request header type of the harness: verif-request-header-v1.2.3 (BaseRequestHeader + id), response: DefaultResponseHeader",
+        "sparse deliveries are performed once per (messages of the direction, adversary action, read calls of the direction), by "
+        "the first run of that class: what a side reads does not depend on what it writes in between (the dense deliveries are "
+        "performed for every interleaving)",
+        "a panic in a goroutine the repository starts itself (util.AwareContextValue, util.EnsureRead) ends the harness process; "
+        "it is a verdict only if the panicking frame is repository code and the case dies again when run alone; after %d such "
+        "deaths per run the remaining cases are not replayed (not_replayed_after_process_deaths)" % MAX_CRASH_ROUNDS,
     ]
 
 
@@ -141,12 +336,12 @@ def replay(ctx, path):
     c = rep["case"]["case"]
     f = os.path.join(ctx.work, "one.ndjson")
     if c.get("fuzz"):
-        ctx.vh(["C30", "fuzz", "--seed", c["seed"], "--only", c["i"], "--out", f + ".res"])
-        rows = core.read_ndjson(f + ".res")
-        judge(ctx, rows, [dict(r) for r in rows], "fuzz")
+        row, _ = run_alone(ctx, ["C30", "fuzz", "--seed", c["seed"]], c["i"], "fuzz-replay", True)
+        for k in ("fuzz", "tamper", "seed"):
+            row.setdefault(k, c.get(k))
+        judge(ctx, {c["i"]: dict(row)}, {c["i"]: row}, "fuzz")
     else:
         core.write_ndjson(f, [c])
-        ctx.vh(["C30", "replay", "--in", f, "--out", f + ".res"])
-        judge(ctx, [c], core.read_ndjson(f + ".res"), "replayed")
+        judge(ctx, [c], run_cases(ctx, ["C30", "replay", "--in", f], 1, "replayed"), "replayed")
     ctx.traces += 1
     ctx.rule = "replay of " + path
